@@ -23,14 +23,15 @@ const Module = "github.com/markkurossi/mpc"
 
 // Program is the loaded repository.
 type Program struct {
-	Dir    string
-	Fset   *token.FileSet
-	Pkgs   []*packages.Package
-	SSA    *ssa.Program
-	ByPath map[string]*packages.Package
-	cg     *callgraph.Graph
-	cgVTA  bool
-	cgv    *callgraph.Graph
+	Dir       string
+	Fset      *token.FileSet
+	Pkgs      []*packages.Package
+	SSA       *ssa.Program
+	ByPath    map[string]*packages.Package
+	cg        *callgraph.Graph
+	cgVTA     bool
+	cgv       *callgraph.Graph
+	stdInvoke map[string]bool
 }
 
 // Config selects the build configuration.
@@ -274,4 +275,78 @@ func Results(r *ssa.Return) []ssa.Value {
 		}
 	}
 	return out
+}
+
+// ModuleReach is a reachability that does not walk through the standard
+// library: CHA resolves a func-typed call inside e.g. sync.Once.Do to every
+// func() of the module, which joins unrelated parts of the program.  From a
+// module function the module callees of the CHA graph are followed; calls back
+// out of non-module code are accounted for by (a) every module function whose
+// value is taken (closure or function value operand) in a reached function and
+// (b) the methods, of every module type converted to an interface in a reached
+// function, whose name is invoked through an interface somewhere in non-module
+// code.  Values reaching non-module code only through package-level variables
+// initialised elsewhere are not followed (stated in DESIGN.md).
+func (p *Program) ModuleReach(roots ...*ssa.Function) map[*ssa.Function]bool {
+	g := p.CallGraph()
+	if p.stdInvoke == nil {
+		p.stdInvoke = map[string]bool{}
+		for fn := range ssautil.AllFunctions(p.SSA) {
+			if InModule(fn) {
+				continue
+			}
+			for _, b := range fn.Blocks {
+				for _, ins := range b.Instrs {
+					if c, ok := ins.(ssa.CallInstruction); ok && c.Common().IsInvoke() {
+						p.stdInvoke[c.Common().Method.Name()] = true
+					}
+				}
+			}
+		}
+	}
+	seen := map[*ssa.Function]bool{}
+	var stack []*ssa.Function
+	push := func(f *ssa.Function) {
+		if f != nil && !seen[f] && InModule(f) {
+			seen[f] = true
+			stack = append(stack, f)
+		}
+	}
+	for _, r := range roots {
+		push(r)
+	}
+	for len(stack) > 0 {
+		f := stack[len(stack)-1]
+		stack = stack[:len(stack)-1]
+		if n := g.Nodes[f]; n != nil {
+			for _, e := range n.Out {
+				push(e.Callee.Func)
+			}
+		}
+		for _, an := range f.AnonFuncs {
+			push(an)
+		}
+		for _, b := range f.Blocks {
+			for _, ins := range b.Instrs {
+				for _, op := range ins.Operands(nil) {
+					if op == nil || *op == nil {
+						continue
+					}
+					if fv, ok := (*op).(*ssa.Function); ok {
+						push(fv)
+					}
+				}
+				if mi, ok := ins.(*ssa.MakeInterface); ok {
+					ms := p.SSA.MethodSets.MethodSet(mi.X.Type())
+					for i := 0; i < ms.Len(); i++ {
+						sel := ms.At(i)
+						if p.stdInvoke[sel.Obj().Name()] {
+							push(p.SSA.MethodValue(sel))
+						}
+					}
+				}
+			}
+		}
+	}
+	return seen
 }
